@@ -26,10 +26,13 @@ GP = "EasyFEA/FEM/_group_elem.py"
 BP = "EasyFEA/FEM/Operators/Bilinear.py"
 
 
-def _setup(et, face=0):
+def _setup(et, face=0, mirrored=False):
     c = Ctx([], nspare=10)
     symrun.install(c)
     coords, connect = patches.two_element_patch(et, face)
+    if mirrored:
+        # reflected patch (what Mesh.Symmetry / an affine image with det < 0 produces): every element negatively oriented
+        coords = [[-p[0]] + list(p[1:]) for p in coords]
     g = fem.exact_group(et, coords, connect)
     return c, coords, connect, g
 
@@ -41,11 +44,15 @@ def _Ke(g, physics, dim):
     return np.asarray(Operators.Bilinear.LinearizedElasticity(g, fem.iso_C(dim))), dim
 
 
-def _native_K(et, physics, face=0):
+def _native_K(et, physics, face=0, mirrored=False):
     """Native replay (floats): assembled matrix of the real simulation on the same patch: symmetry, nullity."""
     try:
         from EasyFEA import Models, Simulations
         mesh = patches.two_element_mesh(et, face)
+        if mirrored:
+            co = mesh.coord.copy()
+            co[:, 0] *= -1
+            mesh.coord = co
         dim = mesh.dim
         if physics == "thermal":
             simu = Simulations.Thermal(mesh, Models.Thermal(k=1.5, c=1.0))
@@ -63,9 +70,9 @@ def _native_K(et, physics, face=0):
         return dict(confirmed=True, raised=repr(e))
 
 
-def ob_congruence(et, physics):
+def ob_congruence(et, physics, mirrored=False):
     gid, nPe, dim, order = common.elem_infos(et)
-    c, coords, connect, g = _setup(et)
+    c, coords, connect, g = _setup(et, mirrored=mirrored)
     from EasyFEA.FEM._utils import MatrixType
     Ke, ncomp = _Ke(g, physics, dim)
     wJ = np.asarray(g.Get_weightedJacobian_e_pg(MatrixType.rigi))
@@ -76,7 +83,7 @@ def ob_congruence(et, physics):
             v = wJ[e, p]
             s = (v.sign() if isinstance(v, X) else ((v > 0) - (v < 0)))
             if s <= 0:
-                raise Refuted(f"{et}: weighted Jacobian at element {e}, point {p} is not positive", signature=f"congruence:{et}:wJ", replay=_native_K(et, physics))
+                raise Refuted(f"{et}: weighted Jacobian at element {e}, point {p} is not positive", signature=f"congruence:{et}:wJ", replay=_native_K(et, physics, 0, mirrored))
     if physics == "thermal":
         B = np.asarray(g.Get_dN_e_pg(MatrixType.rigi))
         Cm = np.empty((dim, dim), dtype=object)
@@ -93,7 +100,7 @@ def ob_congruence(et, physics):
         d = a - b
         if not fem._is0(d):
             raise Refuted(f"{et} {physics}: operator output differs from sum_p wJ B^T C B at {idx} by {float(d):.3e}", signature=f"congruence:{et}:{physics}",
-                          replay=_native_K(et, physics))
+                          replay=_native_K(et, physics, 0, mirrored))
     return Verdict(DISCHARGED, backend="exact field arithmetic on the real operators", sub=n)
 
 
@@ -323,6 +330,8 @@ def build(tier, seed):
         if not (tier == "quick" and heavy):
             obs.append(Ob(f"C02.K.congruence.{et}.thermal", ob_congruence, (et, "thermal"), "B", fk, bound=bound,
                           clause="GradUGradV == sum_p wJ dN^T k dN with wJ > 0", timeout=900))
+            obs.append(Ob(f"C02.K.congruence.{et}.thermal.mirrored", ob_congruence, (et, "thermal", True), "B", fk, bound=bound + ", reflected (every element negatively oriented)",
+                          clause="GradUGradV == sum_p wJ dN^T k dN with wJ > 0 on a mirrored part", timeout=900))
         for fc in faces:
             sfx = f".face{fc}" if fc else ""
             if not (tier == "quick" and heavy):
